@@ -297,25 +297,31 @@ THOROUGH = QUICK + [("raw", 64, 0, n) for n in (1, 47, 48, 111, 112, 128, 200)] 
 
 
 def run(tier, only=None):
+    from . import C07_ed448 as E4
     t0 = time.time()
-    shapes = QUICK if tier == "quick" else THOROUGH
-    built = build(drivers(shapes), tag="C07-cut", cut=True)
-    hooks = Hooks(built)
+    shapes = (QUICK if tier == "quick" else THOROUGH) if (not only or "ed25519" in only) else []
+    shapes4 = (E4.QUICK if tier == "quick" else E4.THOROUGH) if (not only or "ed448" in only) else []
+    built = build(drivers(shapes) + E4.drivers(shapes4) + E4.replay_drivers(), tag="C07-cut", cut=True)
+    hooks = Hooks(built) if shapes else None
     timeout = 60 if tier == "quick" else 300
+    items = [("25519", s) for s in shapes] + [("448", s) for s in shapes4]
 
-    def work(sh):
+    def work(it):
         T.reset()
-        return check_shape(built, hooks, sh, timeout)
-    res = pmap(work, shapes, nproc=NCPU, timeout=timeout * 20)
+        if it[0] == "25519":
+            return check_shape(built, hooks, it[1], timeout)
+        return E4.check_shape(built, it[1], timeout)
+    res = pmap(work, items, nproc=NCPU, timeout=timeout * 20)
     obs = []
-    for sh, (st, val) in zip(shapes, res):
+    for it, (st, val) in zip(items, res):
         if st == "ok":
             obs.extend(val)
         else:
-            o = Obligation("default:ed25519.verify_%s[sig=%d,ctx=%d,msg=%d]" % sh, "L")
+            o = Obligation("default:ed%s.verify_%s[sig=%d,ctx=%d,msg=%d]" % ((it[0],) + tuple(it[1])), "L")
             o.unknown("%s: %s" % (st, str(val)[-400:]))
             obs.append(o)
     built.close()
+    shapes = list(shapes) + list(shapes4)
     return finish("C07", tier, obs, t0,
                   functions_encoded=sorted(set(fn for o in obs for fn in o.functions)),
                   bounds={"shapes": [list(s) for s in shapes],
@@ -326,5 +332,5 @@ def run(tier, only=None):
                          "Point::verify_helper_vartime": "fresh verdict = cofactored equation (C10/C03)"},
                   assumptions=["the stubs' contracts are decided by the checks named in `stubs`",
                                "message/context lengths beyond the listed shapes follow the same code path (lengths only drive the hash buffering: C17)"],
-                  outside=["Ed448 (SHAKE256-based) verification glue", "signing side (deterministic RFC 8032 signature): not posed",
+                  outside=["signing side (deterministic RFC 8032 signature): not posed",
                            "that the helper implements the cofactored equation (C10) and low-order handling (C03)"])
